@@ -29,6 +29,8 @@ func init() {
 			{ID: "R05b", Floor: 1 + 2 + 2, Doc: "finalize wiring: parameters used in their roles, call-site arguments, constructor header", Run: ruleR05b},
 			{ID: "R05c", Floor: 4, Doc: "CARv1 mode gates: no pragma, no Finalize, writer base 0", Run: ruleR05c},
 			{ID: "R05d", Floor: 1, Doc: "index written before header, header at PragmaSize (= R06b)", Run: ruleR06b},
+			{ID: "R05e", Floor: 2, Doc: "the index records for each section the writer position taken before its write, after the write succeeded (= R06a)", Run: ruleR06a},
+			{ID: "R05f", Floor: 1, Doc: "a resumed session's index holds every section already in the file (= R12c)", Run: ruleR12c},
 		},
 	})
 }
